@@ -152,6 +152,17 @@ fn run_cmd(cmd: &str, args: &[String]) -> String {
             ctx.variables.insert("scope::concat::arguments".to_string(), hd);
         }
     }
+    // a text command given the HANDLE of a live, empty collection sees a 27-character text
+    // (the literal argument `handle:EMPTY-<kind>` stands for such a handle: same answers for
+    // is_empty / contains / starts_with "handle:" whatever the 20 random characters are)
+    for (j, a) in args.iter().enumerate() {
+        let kind = match a.as_str() { "handle:EMPTY-array" => Some("array"), "handle:EMPTY-map" => Some("map"), "handle:EMPTY-set" => Some("set_new"), _ => None };
+        if let Some(k) = kind {
+            if let (CommandResult::Continue(Some(hd)), _) = run_one(&mut ctx, k, vec![], Some(format!("empty{}", j))) {
+                ctx.variables.insert(format!("a{}", j), hd.clone());
+            }
+        }
+    }
     let res = run_one(&mut ctx, cmd, written, Some("out".into())).0;
     // an array the caller kept from before the call is still what it was
     if let Some(k) = ctx.variables.get("keeper").cloned() {
@@ -506,7 +517,14 @@ impl Prop for C16Prop {
                     ("equals", vec![hay.clone(), if rng.chance(1, 3) { hay.clone() } else { gen_needle(rng, &hay) }])
                 }
             }
-            16 => (*rng.pick(&["length", "is_empty"]), vec![hay.clone()]),
+            16 => {
+                if rng.chance(1, 5) {
+                    // `is_empty` of a text that happens to be the handle of an EMPTY collection
+                    ("is_empty", vec![format!("handle:EMPTY-{}", rng.pick_s(&["array", "map", "set"]))])
+                } else {
+                    (*rng.pick(&["length", "is_empty"]), vec![hay.clone()])
+                }
+            }
             17 => ("concat", (0..rng.below(4)).map(|_| gen_str(rng, 3)).collect()),
             18 => (*rng.pick(&["trim", "trim_start", "trim_end"]), vec![gen_ws_str(rng)]),
             19 => (*rng.pick(&["uppercase", "lowercase"]), vec![(0..rng.below(8)).map(|_| (32 + rng.below(95) as u8) as char).collect()]),
